@@ -19,7 +19,7 @@ func init() {
 			"(P15-guards) NewWeekFromString re-derives the ISO week of the date it built and rejects a mismatch (no roll-over), month/quarter/year patterns are rejected exactly when NewDate rejects them; " +
 			"(P15-steps) the day steps used to walk out of a period can never skip a period (month 1..28, quarter 1..90, week exactly 7, boundary walks exactly 1); (P15-bounds) quarter/year/month periods begin and end on the table's (month, day) pairs. " +
 			"Not covered: weekday / ISO-week arithmetic (delegated to civil and time), Quarter()'s formula, leap-year handling of civil.Date.",
-		rules:   []ruleFn{ruleP12HashOnly, ruleP15Utc, ruleP15Total, ruleP15Guards, ruleP15Steps, ruleP15Bounds},
+		rules:   []ruleFn{ruleP12HashOnly, ruleP12Populate, ruleP15Utc, ruleP15Total, ruleP15Guards, ruleP15Steps, ruleP15Bounds},
 		trusted: []string{"cloud.google.com/go/civil and time.ISOWeek implement the proleptic Gregorian calendar", "klog.NewDate accepts exactly the valid dates of years 0000-9999 (C16)"},
 	})
 }
